@@ -1,15 +1,20 @@
 # -*- coding: utf-8 -*-
+import math
 from .._compat import number_types, string_types
 
 def to_number(number):
     if isinstance(number, number_types):
         return number
-    if isinstance(number, string_types):
+    if isinstance(number, string_types) and '_' not in number:
+        # text spells a number when int() / float() read it, except for what only Python reads
+        # as a number: digit grouping with '_' and the words nan / inf / infinity
         try:
             return int(number)
         except ValueError:
             try:
-                return float(number)
+                value = float(number)
+                if not (math.isnan(value) or math.isinf(value)):
+                    return value
             except ValueError:
                 pass
     if isinstance(number, bool):
